@@ -20,15 +20,15 @@ type zzEmbedded struct {
 // zzS1: scalars of Go and datatype types, omitempty, pointer, slices, nested / pointer / slice of
 // grouped structs, embedded struct.
 type zzS1 struct {
-	OriginHost   datatype.DiameterIdentity `avp:"Origin-Host"`
-	ResultCode   uint32                    `avp:"Result-Code"`
-	VendorID     datatype.Unsigned32       `avp:"Vendor-Id"`
-	Firmware     uint32                    `avp:"Firmware-Revision,omitempty"`
-	OriginState  *uint32                   `avp:"Origin-State-Id"`
-	Supported    []uint32                  `avp:"Supported-Vendor-Id"`
-	VSA          zzVSA                     `avp:"Vendor-Specific-Application-Id"`
+	OriginHost  datatype.DiameterIdentity `avp:"Origin-Host"`
+	ResultCode  uint32                    `avp:"Result-Code"`
+	VendorID    datatype.Unsigned32       `avp:"Vendor-Id"`
+	Firmware    uint32                    `avp:"Firmware-Revision,omitempty"`
+	OriginState *uint32                   `avp:"Origin-State-Id"`
+	Supported   []uint32                  `avp:"Supported-Vendor-Id"`
+	VSA         zzVSA                     `avp:"Vendor-Specific-Application-Id"`
 	zzEmbedded
-	Untagged     int
+	Untagged int
 }
 
 type zzS2 struct {
@@ -119,6 +119,7 @@ func zzC18_s1() {
 	}
 	b, serr := m.Serialize()
 	vAssert(serr == nil && int(m.Header.MessageLength) == len(b), "message length bookkeeping after Marshal")
+	vObserveBytes("marshalled", b[20:]) // (the header carries random identifiers)
 	check := func(dst *zzS1, how string) {
 		vAssert(dst.OriginHost == src.OriginHost && dst.ResultCode == src.ResultCode && dst.VendorID == src.VendorID, how+": scalar fields reproduced")
 		vAssert(dst.Firmware == src.Firmware, how+": omitempty field reproduced (zero when omitted)")
@@ -233,9 +234,9 @@ func zzC18_s3() {
 
 // zzS4: vendor-specific AVPs of an application dictionary (S6a): V flag from the vendor id, M from "must".
 type zzS4 struct {
-	ServiceSelection datatype.UTF8String `avp:"Service-Selection"` // vendor 10415, must="M", must-not="V"
-	VisitedPLMN      datatype.OctetString `avp:"Visited-PLMN-Id"`  // vendor 10415, must="V,M"
-	OriginHost       datatype.DiameterIdentity `avp:"Origin-Host"` // base application, through the parent chain
+	ServiceSelection datatype.UTF8String       `avp:"Service-Selection"` // vendor 10415, must="M", must-not="V"
+	VisitedPLMN      datatype.OctetString      `avp:"Visited-PLMN-Id"`   // vendor 10415, must="V,M"
+	OriginHost       datatype.DiameterIdentity `avp:"Origin-Host"`       // base application, through the parent chain
 }
 
 func zzC18_s4() {
